@@ -11,6 +11,7 @@ One function is additionally run with its REAL body: post_slave_device_events au
 level none); registered slave objects with recorder methods, 15 kinds of credential, compared with Events.v / Spec.v.
 """
 import asyncio
+import contextlib
 import glob
 import hashlib
 import inspect
@@ -104,8 +105,7 @@ def apply_flag(name, on, workdir):
     from qtoggleserver.conf import settings
     if name.startswith('settings.'):
         _set_setting(name, ON_VALUES.get(name, True) if on else OFF_VALUES.get(name, False))
-    elif name == 'history.is_enabled()':
-        settings.core.history_support = True
+    elif name == 'persist.is_samples_supported()':
         persist._thread_local.driver = _FakeDriver(bool(on))
     elif name == 'is_discover_enabled()':
         settings.slaves.discover.ap.interface = 'wlan-c09' if on else None
@@ -135,9 +135,12 @@ def default_flags(flag_names, workdir):
             for p in n.split('.')[1:]:
                 obj = getattr(obj, p)
             out[n] = bool(obj)
-        elif n == 'history.is_enabled()':
-            # the default JSON persistence driver supports samples and history_support defaults to True
-            out[n] = bool(settings.core.history_support)
+        elif n == 'persist.is_samples_supported()':
+            # what the configured (default: JSON) persistence driver class answers, without instantiating it
+            from qtoggleserver.persist import base as persist_base
+            from qtoggleserver.utils import dynload as dynload_utils
+            cls = dynload_utils.load_attr(settings.persist.driver)
+            out[n] = cls.is_samples_supported is not persist_base.BaseDriver.is_samples_supported
         elif n == 'is_discover_enabled()':
             out[n] = discover.is_enabled()
         elif n == 'system.conf.can_write_conf_file()':
@@ -274,6 +277,51 @@ def setup_impl(ctx, res):
 
     web_base.APIHandler.call_api_func = guarded_call_api_func
 
+    # with every API body stubbed nothing may schedule work on the hub's main loop or reboot: core.main.loop is a recorder
+    # that attributes a call to the request being handled (the RequestHandler found on the caller's stack)
+    from qtoggleserver import system as qs_system
+    from qtoggleserver.core import main as core_main
+    from tornado.web import RequestHandler
+
+    def _current_case():
+        f = inspect.currentframe()
+        while f is not None:
+            h = f.f_locals.get('self')
+            if isinstance(h, RequestHandler):
+                try:
+                    return h.request.headers.get('X-Case'), getattr(h, 'access_level', None)
+                except Exception:
+                    return None, None
+            f = f.f_back
+        return None, None
+
+    class _LoopRecorder:
+        def _rec(self, what, fn):
+            case, lvl = _current_case()
+            calls.setdefault(case, []).append(
+                ('SIDE-EFFECT:core.main.loop.%s(%s)' % (what, getattr(fn, '__name__', repr(fn))), lvl))
+
+        def call_later(self, delay, fn, *a, **kw):
+            self._rec('call_later', fn)
+
+        def call_soon(self, fn, *a, **kw):
+            self._rec('call_soon', fn)
+
+        def create_task(self, coro, *a, **kw):
+            self._rec('create_task', coro)
+            try:
+                coro.close()
+            except Exception:
+                pass
+
+    def _reboot():
+        case, lvl = _current_case()
+        calls.setdefault(case, []).append(('SIDE-EFFECT:system.reboot', lvl))
+    _reboot.__name__ = 'reboot'
+    if core_main.loop is None:
+        core_main.loop = _LoopRecorder()
+    qs_system.reboot = _reboot
+
     def fresh_auth():
         # tokens carry iat and are refused after settings.core.max_client_time_skew (300 s): make them per flag set
         return {u: core_api_auth.make_auth_header(core_api_auth.ORIGIN_CONSUMER, u, hashes[u]) for u in PASSWORDS}
@@ -339,7 +387,7 @@ def expected_table(tr, on):
     """[(regex, handler)] the translated entries predict for the flags that are on; the opaque block is ('<qui>', 'qui')"""
     out = []
     for e in tr['entries']:
-        if all(g in on for g in e['guard']):
+        if all(g in on for g in e['guard_atoms']):
             out.append(('<qui>', 'qui') if e['kind'] == 'KOpaque' else (tornado_pattern(e['regex']), e['handler']))
     return out
 
@@ -460,9 +508,13 @@ async def run_requests(impl, app, reqs):
                 out[i] = ('err', '%s: %s' % (type(e).__name__, e))
                 return
         ran = calls.get(str(i), [])
+        if len(ran) > 1 and any(not n.startswith('SIDE-EFFECT:') for n, _ in ran):
+            ran = [x for x in ran if not x[0].startswith('SIDE-EFFECT:')]   # effects of a served function are its own
+        elif len(ran) > 1:
+            ran = ran[:1]
         if len(ran) == 1:
             name, lvl = ran[0]
-            if not name.startswith('UNCHECKED:') and not r.get('noauth') and lvl != impl['levels'][r['user']]:
+            if not name.startswith(('UNCHECKED:', 'SIDE-EFFECT:')) and not r.get('noauth') and lvl != impl['levels'][r['user']]:
                 out[i] = ('ran', name, code, 'level seen by the function %r' % lvl)
             else:
                 out[i] = ('ran', name, code)
@@ -525,6 +577,12 @@ def violation_of(c, required=None):
     if c['cls'] == 1:
         kind = 'unknown-route-not-404'
         what = '%s %s (no route of this shape is enabled) answered %s instead of 404' % (c['method'], c['path'], o[1:])
+    elif required == -2:
+        kind = 'route-served-without-its-feature'
+        what = ('%s %s as %s (level %d) %s, but the feature this route belongs to is off in this configuration '
+                '(route_condition_spec / method_condition_spec in coq/theories/C09/Spec.v): it must be an unknown route, 404'
+                % (c['method'], c['path'], c['user'] or 'unauthenticated', lvl,
+                   'ran %s' % o[1] if o[0] == 'ran' else 'was answered %s' % (o[1],)))
     elif o[0] == 'ran' and required == -1:
         kind = 'route-not-in-specification'
         what = ('%s %s as %s (level %d) ran %s, but no route of shape %s is in the specification (coq/theories/C09/Spec.v): '
@@ -544,6 +602,7 @@ def violation_of(c, required=None):
         'what': what,
         'case': {'flags_on': c['flags_on'], 'path': c['path'], 'method': c['method'], 'user': c['user'], 'json': c['json']},
         'expected': ('404 (unknown route)' if c['cls'] == 1 else
+                     '404: the route\'s feature is off' if required == -2 else
                      'route not in the specification' if required == -1 else
                      'required level %s for %s %s; caller level %d: %s' % (
                          required, c['method'], c['tmpl'], lvl,
@@ -587,7 +646,7 @@ EV_SLAVES = {   # name -> (constructor arguments, facts (exists, has_hash, poll,
 }
 
 
-def ev_credentials(impl, slave_hash):
+def ev_credentials(impl, slave_hash, unset=False):
     """[(label, Authorization header or None, facts (present, jwt, iss, device, fresh, slave_key))]; slave_hash is the key
     the slave's genuine token is signed with"""
     import jwt
@@ -614,7 +673,10 @@ def ev_credentials(impl, slave_hash):
         ('consumer-token-slave-key', tok({'iss': 'qToggle', 'ori': 'consumer', 'usr': 'admin', 'iat': now}, slave_hash),
          (1, 1, 1, 0, 1, 1)),
         ('device-token-slave-key-bad-iss', tok(dict(dev, iss='other'), slave_hash), (1, 1, 0, 1, 1, 1)),
-        ('device-token-slave-key-stale', tok(dict(dev, iat=now - 100000), slave_hash), (1, 1, 1, 1, 0, 1)),
+        # without a real date/time the device cannot judge iat: the token then counts as fresh
+        ('device-token-slave-key-stale', tok(dict(dev, iat=now - 100000), slave_hash), (1, 1, 1, 1, 1 if unset else 0, 1)),
+        ('device-token-forged-alg-none', forged_tokens('device', None)[0][1], (1, 1, 1, 1, 1, 0)),
+        ('device-token-forged-hs512-junk-key', forged_tokens('device', None)[1][1], (1, 1, 1, 1, 1, 0)),
         # genuine: built the way a device signs its webhook calls (core/webhooks.py): make_auth_header(ORIGIN_DEVICE, None, hash)
         ('device-token-slave-key', core_api_auth.make_auth_header(core_api_auth.ORIGIN_DEVICE, None, slave_hash),
          (1, 1, 1, 1, 1, 1)),
@@ -622,7 +684,7 @@ def ev_credentials(impl, slave_hash):
     ]
 
 
-async def events_phase(ctx, impl, tr, res, flagset):
+async def events_phase(ctx, impl, tr, res, flagset, unset=False):
     """-> list of event cases {slave, credential, sfacts, cfacts, observed, flags_on}"""
     from qtoggleserver.slaves import devices as slaves_devices
     w = impl['events_wrapper']
@@ -657,11 +719,12 @@ async def events_phase(ctx, impl, tr, res, flagset):
                 registered.append(name)
             # (PyJWT refuses an empty HMAC key, so for the slave without a password hash the "genuine" tokens are signed
             # with the same key as for the others: nothing can verify there, s_has_hash = false decides)
-            for label, header, cfacts in ev_credentials(impl, slave_hash):
+            for label, header, cfacts in ev_credentials(impl, slave_hash, unset):
                 path = '/api/devices/%s/events' % name
                 reqs.append({'path': path, 'method': 'POST', 'user': None, 'json': True, 'noauth': True,
                              'auth_header': header, 'body': '{"type": "c09-probe", "params": {"case": {CASE}}}'})
-                metas.append({'flags_on': sorted(flagset), 'path': path, 'method': 'POST', 'slave': name,
+                metas.append({'flags_on': sorted(flagset), 'clock': 'unset (before 2019)' if unset else 'real',
+                              'path': path, 'method': 'POST', 'slave': name,
                               'credential': label, 'sfacts': sfacts, 'cfacts': cfacts})
         w.__closure__[1].cell_contents = impl['events_original']   # the real body, for this phase only
         outs = await run_requests(impl, app, reqs)
@@ -706,15 +769,51 @@ def evaluate_events(ctx, res, cases):
         o = c['observed']
         res['violations'].append({
             'key': {'kind': 'slave-events-authentication', 'slave': c['slave'], 'credential': c['credential']},
-            'what': 'POST %s with credential "%s" %s; the specification says: %s' % (
-                c['path'], c['credential'],
+            'what': 'POST %s with credential "%s" (device clock %s) %s; the specification says: %s' % (
+                c['path'], c['credential'], c['clock'],
                 'was served: the event reached the slave object' if o[0] == 'ran' else 'was answered %s' % (o[1],), expected),
-            'case': {'flags_on': c['flags_on'], 'path': c['path'], 'method': 'POST', 'slave': c['slave'],
+            'case': {'flags_on': c['flags_on'], 'clock': c['clock'], 'path': c['path'], 'method': 'POST', 'slave': c['slave'],
                      'credential': c['credential'], 'phase': 'slave-events (real function body, registered slave objects)'},
             'expected': expected,
             'observed': list(o),
         })
     return len(cases)
+
+
+@contextlib.contextmanager
+def device_clock(unset):
+    """unset=True: the device has no real date/time (system.date.has_real_date_time() is false): the two modules that ask the
+    wall clock for that purpose (system/date.py, core/api/auth.py) see a clock in 2001; nothing else does"""
+    if not unset:
+        yield
+        return
+    import types
+    from qtoggleserver.core.api import auth as core_api_auth
+    from qtoggleserver.system import date as system_date
+    fake = types.SimpleNamespace(time=lambda: 1000000000.0)
+    saved = (system_date.time, core_api_auth.time)
+    system_date.time = core_api_auth.time = fake
+    try:
+        if system_date.has_real_date_time():
+            raise RuntimeError('the harness could not unset the device clock')
+        yield
+    finally:
+        system_date.time, core_api_auth.time = saved
+
+
+def forged_tokens(origin, usr):
+    """tokens nobody with a password could have made: [(label, header)]; claims as make_auth_header issues them now"""
+    import jwt
+    from qtoggleserver import system
+    claims = {'iss': 'qToggle', 'ori': origin}
+    if usr:
+        claims['usr'] = usr
+    if system.date.has_real_date_time():
+        claims['iat'] = int(time.time())
+    return [
+        ('forged-alg-none', 'Bearer ' + jwt.encode(claims, key=None, algorithm='none')),
+        ('forged-hs512-junk-key', 'Bearer ' + jwt.encode(claims, key='c09-junk-key-' * 6, algorithm='HS512')),
+    ]
 
 
 # ---------------------------------------------------------------------------------------------------------------------
@@ -727,7 +826,7 @@ async def auth_phase(ctx, impl, tr, res, flagset):
     table, app = await build_app(impl, tr, flagset, ctx.workdir, res)
     pairs = []   # (path, tmpl, method)
     for e in tr['entries']:
-        if e['kind'] == 'KApi' and all(g in flagset for g in e['guard']):
+        if e['kind'] == 'KApi' and all(g in flagset for g in e['guard_atoms']):
             for m in METHODS:
                 if m in tr['classes'][e['handler']]['methods']:
                     pairs.append((sample_path(e['tmpl']), e['tmpl'], m))
@@ -743,7 +842,10 @@ async def auth_phase(ctx, impl, tr, res, flagset):
     wrong = hashlib.sha256(b'c09-not-a-password').hexdigest()
     out = []
     try:
-        for bits in itertools.product([0, 1], repeat=3):   # 1 = password set
+        plan = [(False, bits) for bits in itertools.product([0, 1], repeat=3)]   # 1 = password set
+        plan += [(True, (1, 1, 1)), (True, (0, 0, 0))]                            # device clock unset
+        for unset, bits in plan:
+          with device_clock(unset):
             cfg = dict(zip(('admin', 'normal', 'viewonly'), bits))
             for u, b in cfg.items():
                 setattr(core_device_attrs, u + '_password_hash', impl['hashes'][u] if b else empty)
@@ -756,11 +858,15 @@ async def auth_phase(ctx, impl, tr, res, flagset):
             headers.append(('admin-token-wrong-key', core_api_auth.make_auth_header(core_api_auth.ORIGIN_CONSUMER, 'admin', wrong),
                             (True, False, impl['levels']['admin'])))
             headers.append(('garbage-bearer', 'Bearer abc.def.ghi', (True, False, 0)))
+            for u in ('admin', 'viewonly'):
+                for label, hdr in forged_tokens(core_api_auth.ORIGIN_CONSUMER, u):
+                    headers.append(('%s-%s' % (label, u), hdr, (True, False, impl['levels'][u])))
             reqs, metas = [], []
             for path, tmpl, m in pairs:
                 for label, hdr, (present, valid, tl) in headers:
                     reqs.append({'path': path, 'method': m, 'user': None, 'json': True, 'noauth': True, 'auth_header': hdr})
-                    metas.append({'flags_on': sorted(flagset), 'pw_config': {u: ('set' if b else 'empty') for u, b in cfg.items()},
+                    metas.append({'flags_on': sorted(flagset), 'clock': 'unset (before 2019)' if unset else 'real',
+                                  'pw_config': {u: ('set' if b else 'empty') for u, b in cfg.items()},
                                   'path': path, 'tmpl': tmpl, 'method': m, 'header': label,
                                   'facts': (present, valid, admin_empty, tl)})
             outs = await run_requests(impl, app, reqs)
@@ -792,7 +898,7 @@ def evaluate_auth(ctx, res, cases):
     else:
         evals, hdr = ['bad_auth_spec acases'], HEADER.replace('C09.Run', 'C09.SpecRun')
     outs = coq.eval_shards(ctx.workdir, 'c09auth_%d' % _state.get('round', 0), hdr, shards, evals, jobs=COQ_JOBS)
-    show = lambda c: {k: c[k] for k in ('flags_on', 'pw_config', 'path', 'method', 'header', 'observed')}  # noqa: E731
+    show = lambda c: {k: c[k] for k in ('flags_on', 'clock', 'pw_config', 'path', 'method', 'header', 'observed')}  # noqa: E731
     for (rc, lists, err), part in zip(outs, metas):
         if rc != 0 or len(lists) != len(evals):
             res['tie_failures'].append('coqc failed on the password-configuration cases: %s' % err[-600:])
@@ -807,10 +913,11 @@ def evaluate_auth(ctx, res, cases):
             o = c['observed']
             res['violations'].append({
                 'key': {'kind': 'level-granted', 'header': c['header'], 'admin_password': c['pw_config']['admin'],
+                        'clock': c['clock'].split()[0],
                         'route': c['tmpl'], 'method': c['method']},
-                'what': '%s %s with %s under passwords %s %s; the specification grants level %d to this request '
+                'what': '%s %s with %s under passwords %s, device clock %s, %s; the specification grants level %d to this request '
                         '(a header is judged alone; only a request without header is admin when the admin password is empty)'
-                        % (c['method'], c['path'], c['header'], c['pw_config'],
+                        % (c['method'], c['path'], c['header'], c['pw_config'], c['clock'],
                            'ran %s' % o[1] if o[0] == 'ran' else 'was answered %s' % (o[1],), lvl),
                 'case': dict(show(c), phase='password configurations (stubbed bodies)'),
                 'expected': 'the decision of required_spec for level %d' % lvl,
@@ -1102,7 +1209,7 @@ def run(ctx, res, mode):
             groups.append((fs, await run_flagset(ctx, impl, tr, fs, res, False, explicit=reqs)))
         res['distribution']['corpus_and_replay_cases'] = len(seeds)
         for i, fs in enumerate([] if ctx.replay else sets):
-            full = (i == 0) or mode != 'quick'
+            full = (i == 0) or mode == 'thorough'
             groups.append((fs, await run_flagset(ctx, impl, tr, fs, res, full)))
         # the slave events endpoint with its real body (always: 75 requests), slaves enabled
         ev_sets = [frozenset(sets[0] | {'settings.slaves.enabled'})]
@@ -1110,6 +1217,8 @@ def run(ctx, res, mode):
             ev_sets.append(frozenset(tr['flags']))
         for fs in ev_sets:
             evcases.extend(await events_phase(ctx, impl, tr, res, fs))
+        with device_clock(True):
+            evcases.extend(await events_phase(ctx, impl, tr, res, ev_sets[0], unset=True))
         # the level granted by prepare() under the 8 password configurations (always)
         authcases.extend(await auth_phase(ctx, impl, tr, res, sets[0]))
     evcases, authcases = [], []
@@ -1195,7 +1304,8 @@ def run(ctx, res, mode):
             res['exhaustive'] = True
 
 
-KNOWN_FLAGS = ['settings.frontend.enabled', 'settings.core.sequences_support', 'history.is_enabled()',
+KNOWN_FLAGS = ['settings.frontend.enabled', 'settings.core.sequences_support', 'persist.is_samples_supported()',
+               'settings.core.history_support',
                'settings.core.backup_support', 'settings.system.fwupdate.driver', 'settings.slaves.enabled',
                'is_discover_enabled()', 'settings.webhooks.enabled', 'settings.core.listen_support',
                'settings.reverse.enabled', 'system.conf.can_write_conf_file()', 'settings.debug',
